@@ -47,14 +47,14 @@ ASSUMPTIONS = ['objects of a space = declared types x all their statuses x decla
 EXHAUSTIVE_NOTE = 'all objects of each generated space pairwise (per space exhaustive)'
 REQUIRED = {'quick': {'pairs.objects': 20000, 'neighbours.state': 2000, 'neighbours.observation': 1500, 'positional': 3000,
                       'agent_marker': 1000, 'default.triple': 1000, 'channels.no_overlap': 50, 'channels.compact': 50,
-                      'equal_members': 500, 'mutated_members': 500, 'mutated_members.dynamics': 50}}
+                      'equal_members': 500, 'mutated_members': 500, 'mutated_members.dynamics': 50, 'spaces.with_custom_types': 10}}
 STATUS_INDEX = {Door.Status.OPEN: 0, Door.Status.CLOSED: 1, Door.Status.LOCKED: 2}
 COLOR_VALUE = {Color.NONE: 0, Color.RED: 1, Color.GREEN: 2, Color.BLUE: 3, Color.YELLOW: 4}
 
 
 def own_triple(o):
     t = list(grid_object_registry).index(type(o))
-    s = STATUS_INDEX[o.state] if isinstance(o, Door) else 0
+    s = STATUS_INDEX[o.state] if isinstance(o, Door) else getattr(o, 'k', 0)
     return (t, s, COLOR_VALUE[o.color])
 
 
@@ -92,6 +92,21 @@ def object_level(ctx, spec, name, rep, objs, which, payload):
             ctx.violation('faithful', f'{name}.not_injective' if same_enc else f'{name}.not_functional',
                           f'{spec} {name} {which}: objects {enc.eo(a)} and {enc.eo(b)} are encoded {encs[i]} and {encs[j]}',
                           'obj_case', dict(payload, a=enc.obj_to_json(a), b=enc.obj_to_json(b)))
+        # the library's own equality (the statement's "equal") must coincide with equality of representations, and
+        # equal objects must hash alike
+        try:
+            lib_eq = bool(a == b) and bool(b == a)
+            one_sided = bool(a == b) != bool(b == a)
+        except Exception:
+            lib_eq, one_sided = same_obj, False
+        if one_sided or lib_eq != same_enc:
+            ctx.violation('faithful', f'{name}.equality_vs_representation',
+                          f'{spec} {name} {which}: objects {enc.eo(a)} and {enc.eo(b)}: library == says {bool(a == b)}/{bool(b == a)} but '
+                          f'their encodings are {"equal" if same_enc else "different"} ({encs[i]} vs {encs[j]})', 'obj_case',
+                          dict(payload, a=enc.obj_to_json(a), b=enc.obj_to_json(b)))
+        elif lib_eq and hash(a) != hash(b):
+            ctx.violation('faithful', 'hash.equal_objects_hash_differently', f'{spec}: {enc.eo(a)} == {enc.eo(b)} but hashes differ',
+                          'obj_case', dict(payload, a=enc.obj_to_json(a), b=enc.obj_to_json(b)))
         ea, eb = enc.eo(a), enc.eo(b)
         if sum(x != y for x, y in zip(ea, eb)) == 1:
             ctx.nontrivial((enc.jdump(spec), name, which, ea, eb))
@@ -110,8 +125,9 @@ def object_level(ctx, spec, name, rep, objs, which, payload):
             if chans[c1] & chans[c2]:
                 ctx.violation('faithful', f'{name}.channels_overlap',
                               f'{spec} {name} {which}: channels {c1} and {c2} share values {sorted(chans[c1] & chans[c2])}', 'obj_case', payload)
-        coloured = any(t in spec['types'] for t in ('Exit', 'Door', 'Key', 'Telepod', 'Beacon'))
-        if name == 'compact' and (coloured or spec['colors'] == ['NONE']):  # every declared colour is realisable by an object
+        coloured = any(t in spec['types'] for t in ('Exit', 'Door', 'Key', 'Telepod', 'Beacon', 'Gate'))
+        # gap-freeness is only decidable from objects when every declared colour and every status is realised by an enumerated object
+        if name == 'compact' and (coloured or spec['colors'] == ['NONE']) and 'Countdown' not in spec['types']:
             union = chans[0] | chans[1] | chans[2]
             if union != set(range(len(union))):
                 ctx.violation('faithful', 'compact.gaps',
@@ -319,6 +335,7 @@ def space_case(ctx, types, colors, shape, view, idx):
 
 
 def run(ctx):
+    from .. import custom_objects
     with reach(ctx, [rep_mod.default_grid_object_representation_convert, rep_mod.no_overlap_grid_object_representation_convert,
                      rep_mod.compact_grid_object_representation_convert, srep_mod.CompactGridObjectStateRepresentation.__init__,
                      orep_mod.CompactGridObjectObservationRepresentation.__init__, GridObject.__eq__, GridObject.__hash__,
@@ -326,6 +343,11 @@ def run(ctx):
         for i, (types, colors, shape, view) in enumerate(repgen.space_cases(ctx, 160)):
             if not ctx.mine(i):
                 continue
+            if i % 4 == 1:
+                # user-defined registered types in the space: a door of a derived class next to plain doors, an object with
+                # 300 statuses
+                types = list(types) + [t for t in (custom_objects.Gate, Door, custom_objects.Countdown) if t not in types]
+                ctx.hit('spaces.with_custom_types')
             if ctx.out_of_time(0.9):
                 ctx.add('spaces_skipped_for_time')
                 continue
@@ -334,6 +356,7 @@ def run(ctx):
 
 
 def replay(ctx, kind, payload):
+    from .. import custom_objects  # noqa: F401  (registers the custom types named in the payload)
     types = [compose.object_type(n) for n in payload['types']]
     colors = [Color[c] for c in payload['colors']]
     space_case(ctx, types, colors, tuple(payload['shape']), tuple(payload['view']), 0)
